@@ -278,7 +278,7 @@ fn parse_at_rule(
                 );
             }
             let r = input.try_parse::<_, _, ParseError<()>>(|input| {
-                let rel_path = input.expect_string_cloned()?;
+                let rel_path = input.expect_url_or_string()?;
                 let mut close_stack = vec![];
                 let mut has_media = false;
                 while let Ok(peek) = input.peek() {
@@ -308,6 +308,15 @@ fn parse_at_rule(
                                 }
                                 _ => unreachable!(),
                             }
+                            let st = StepToken::wrap(Token::CurlyBracketBlock, peek.position);
+                            let close = ss.append_nested_block(st, input);
+                            close_stack.push(close);
+                        }
+                        Token::Ident(x) if &**x == "layer" && close_stack.is_empty() => {
+                            // the `layer` keyword imports into an anonymous layer
+                            input.next().ok();
+                            let st = StepToken::wrap(Token::AtKeyword(x.clone()), peek.position);
+                            ss.append_token(st, input, Some(peek.token.clone()));
                             let st = StepToken::wrap(Token::CurlyBracketBlock, peek.position);
                             let close = ss.append_nested_block(st, input);
                             close_stack.push(close);
